@@ -160,6 +160,14 @@ def search(job):
         Ext = validators.extend(classes[6], version="my-draft6")
         if validators.validator_for({"$schema": IDS[6] + "#"}) is not Ext and validators.validator_for({"$schema": IDS[6] + "#"}) is not classes[6]:
             fail(what="registration", problem="draft 6 id maps to an unrelated class")
+        # after a re-registration under an id that was already dispatched on (in both spellings, above), every spelling
+        # selects the class registered for that id NOW - the same one for the id with and without the empty fragment
+        tried += 1
+        now = [validators.validator_for({"$schema": sp}) for sp in (IDS[6], IDS[6] + "#")]
+        reg = validators.meta_schemas.get(IDS[6])
+        if now[0] is not now[1] or now[0] is not reg:
+            fail(what="registration", schema={"$schema": IDS[6]}, problem="after re-registering draft 6's id (extend with a version), the id without / with '#' selects %s / %s while the registry holds %s"
+                 % (getattr(now[0], "__name__", now[0]), getattr(now[1], "__name__", now[1]), getattr(reg, "__name__", reg)))
     finally:
         validators.meta_schemas.store.clear()
         validators.meta_schemas.store.update({k: v for k, v in before.items()})
